@@ -47,13 +47,17 @@ pub fn max_k(cid: Cid, sid: Sid) -> usize {
     sid.width() / cid.bits()
 }
 
-/// K values of a tier: quick = {1,2,3,4, one mid value, fit-1, fit} (and, for 128-bit storage, the
-/// values around the 64-bit word boundary); thorough = every K that fits.
-pub fn k_set(cid: Cid, sid: Sid, thorough: bool) -> Vec<usize> {
+/// K values of a tier.  Both tiers now instantiate every K that fits (all 634 k-mer types are
+/// reached through the object-safe API at no extra compile cost); `reduced_k_set` is kept for the
+/// places where the per-K work is heavy.
+pub fn k_set(cid: Cid, sid: Sid, _thorough: bool) -> Vec<usize> {
+    (1..=max_k(cid, sid)).collect()
+}
+
+/// {1,2,3,4, one mid value, fit-1, fit} (and, for 128-bit storage, the values around the 64-bit
+/// word boundary)
+pub fn reduced_k_set(cid: Cid, sid: Sid) -> Vec<usize> {
     let m = max_k(cid, sid);
-    if thorough {
-        return (1..=m).collect();
-    }
     let mut v = vec![1, 2, 3, 4, m / 2, m.saturating_sub(1), m];
     if sid == Sid::U128 {
         let b = 64 / cid.bits();
